@@ -9,18 +9,26 @@ package account
 //verif:bound UTXO sets: nConf confirmed + nUnc unconfirmed records with (nConf,nUnc) in {(1,0),(2,0),(1,1),(2,1)} (quick and thorough); every unconfirmed record is either a fresh output or the same output as one of the confirmed records (the state between attaching a block and processing the pool removal); amounts arbitrary below 2^40, valid heights and the current height arbitrary uint64
 //verif:bound request: account, asset and vote of the records vary in one field per obligation (quick: vary = 0 account / 1 asset / 2 vote, the other two fields equal to the request) or in all three (thorough: vary = 3 with one confirmed and one unconfirmed record); amount arbitrary below 2^42, useUnconfirmed arbitrary
 //verif:bound histories: VerifC26Reserve = up to nEarlier (quick 0..1; thorough 2 for one confirmed + one unconfirmed record) earlier ReserveParticular calls on arbitrary outputs, then optionally Cancel(arbitrary id) or expireReservation(arbitrary instant), then Reserve; VerifC26Particular = an earlier Reserve, then optionally Cancel / expireReservation, then ReserveParticular of an arbitrary (existing or unknown) output
+//verif:bound expiry histories (VerifC26Expiry): reservation A (ReserveParticular of an arbitrary output, or Reserve when kind = 1) expiring d_A seconds after its creation; t1 seconds pass; reservation attempt B (ReserveParticular of an arbitrary output); t2 seconds pass; then nothing, the sweeper (expireReservation(now)) or Cancel(arbitrary id); t3 seconds pass; reservation attempt C (ReserveParticular of an arbitrary output, or Reserve when kind = 2); all d and t symbolic in 0..65535 s, so every expiry may or may not have passed at every later step, with or without the sweeper having run; record sets (1,0),(2,0),(1,1) in quick, (2,1) and the Reserve kinds on two records in thorough
+//verif:assume liveness of a reservation (oracle): a reservation is live from the moment it is handed out until it is cancelled or removed by the sweeper (expireReservation called with an instant later than its expiry). A reservation whose expiry instant has passed but that has not been swept yet is STILL live: the keeper still holds its outputs, so ReserveParticular must answer ErrReserved and Reserve must not select them until the sweeper has run
+//verif:assume clock of VerifC26Expiry: for the solver time.Now and the expiry instants are read from a harness clock (whole seconds) that verifC26Pass advances; in the native replay they come from the real clock and verifC26Pass instead moves the expiry of every reservation in the keeper into the past by the same amount; steps at which an expiry instant equals the current instant exactly are excluded (the real clock advances between two reads). The unmodified keeper never reads the clock itself; the stub exists so that a keeper that does is still decided
 //verif:assume encoding/json.Marshal / Unmarshal round-trip a UTXO record (solver: record looked up by buffer identity; native replay: the real encoder and decoder)
 //verif:assume bc.Hash.String (protobuf text form, used for the database keys) is an injective function of the hash (solver: the 32 raw bytes; native replay: the real text form)
 //verif:assume totals stay below 2^64 (amounts below 2^40: the BTM supply is below 2^61)
 //verif:assume sequential execution: every entry point takes uk.mtx for its whole body, so the concurrent behaviour is a sequential one; that argument is not machine-checked here
 //verif:outside concurrent callers and the expireWorker goroutine (its body expireReservation is covered), contract UTXOs (SCU: keys), LevelDB, account/builder.go and wallet/unconfirmed.go (callers), map iteration orders other than the engine's for the unconfirmed set (the native replay uses Go's)
 //verif:override encoding/json.Unmarshal -> verifC26Unmarshal
+//verif:override time.Now -> verifC26Now
+//verif:override github.com/bytom/bytom/account.verifC26Pass -> verifC26PassStub
+//verif:override github.com/bytom/bytom/account.verifC26ExpiryIn -> verifC26ExpiryInStub
 //verif:override encoding/json.Marshal -> verifC26Marshal
 //verif:override (*github.com/bytom/bytom/protocol/bc.Hash).String -> verifC26HashString
 //verif:obligation fn=VerifC26Reserve args=1,0,0,1;2,0,0,1;1,1,0,1;1,1,1,1;1,1,2,1 secs=900 validate=12 timeout=120000
 //verif:obligation fn=VerifC26Reserve args=2,1,0,0;2,1,1,0;2,1,2,0 secs=900 timeout=120000
 //verif:obligation fn=VerifC26Reserve args=2,1,0,1;1,1,0,2;1,1,3,1 tier=thorough secs=3000 paths=4000000 timeout=120000
 //verif:obligation fn=VerifC26Particular args=1,1,0;2,0,0 secs=900 validate=12 timeout=120000
+//verif:obligation fn=VerifC26Expiry args=1,0,0;2,0,0;1,1,0;1,0,1;1,0,2 secs=3000 validate=12 timeout=120000
+//verif:obligation fn=VerifC26Expiry args=2,1,0;2,0,1;2,0,2;1,1,1;1,1,2 tier=thorough secs=3000 paths=4000000 timeout=120000
 //verif:obligation fn=VerifC26Particular args=2,1,0 tier=thorough secs=3000 paths=4000000 timeout=120000
 
 import (
@@ -117,6 +125,23 @@ func verifC26HashString(h *bc.Hash) string {
 	return string(b[:])
 }
 
+// harness clock (solver); the native replay uses the real clock
+var verifC26Clock int64
+
+func verifC26Now() time.Time { return time.Unix(1600000000+verifC26Clock, 0) }
+
+// an instant d seconds from now
+func verifC26ExpiryInStub(d int64) time.Time { return time.Unix(1600000000+verifC26Clock+d, 0) }
+func verifC26ExpiryIn(d int64) time.Time     { return time.Now().Add(time.Duration(d) * time.Second) }
+
+// d seconds pass
+func verifC26PassStub(uk *utxoKeeper, d int64) { verifC26Clock += d }
+func verifC26Pass(uk *utxoKeeper, d int64) {
+	for _, r := range uk.reservations {
+		r.expiry = r.expiry.Add(-time.Duration(d) * time.Second)
+	}
+}
+
 var verifC26AB = [256]bool{'a': true, 'b': true}
 
 // ---------------------------------------------------------------------------
@@ -132,6 +157,8 @@ type verifC26World struct {
 	reqAsst bc.AssetID
 	reqVote []byte
 	dup     bool
+	now     int64          // VerifC26Expiry: seconds since the start of the history
+	all     []*verifC26Res // every reservation ever handed out
 }
 
 type verifC26Res struct {
@@ -163,6 +190,7 @@ func verifC26Fields(w *verifC26World, u *UTXO, vary int) {
 
 func verifC26Setup(nConf, nUnc, vary int) *verifC26World {
 	verifC26Records = nil
+	verifC26Clock = 0
 	w := &verifC26World{}
 	w.height = verifU64("height")
 	c := verifU8("req.account")
@@ -242,6 +270,7 @@ func (w *verifC26World) record(res *reservation, exp int64) {
 		verifAssert(o.id != res.id, "reservation-id-fresh")
 	}
 	w.live = append(w.live, l)
+	w.all = append(w.all, l)
 }
 
 func (w *verifC26World) anyHash(name string) bc.Hash {
@@ -450,4 +479,107 @@ func VerifC26Particular(nConf int, nUnc int, vary int) {
 	case ErrImmature:
 		verifReach("VerifC26Particular:immature")
 	}
+}
+
+// ---------------------------------------------------------------------------
+// expiry histories: an expiry instant may pass without the sweeper having run
+
+func (w *verifC26World) pass(name string) {
+	d := int64(verifU16(name))
+	verifC26Pass(w.uk, d)
+	w.now += d
+}
+
+// notAtBoundary: no expiry instant equals the current instant exactly
+func (w *verifC26World) notAtBoundary() {
+	for _, l := range w.all {
+		verifAssume(l.exp != w.now)
+	}
+}
+
+func (w *verifC26World) expiredUnsweptHolder(id bc.Hash) bool {
+	for _, l := range w.live {
+		for _, o := range l.outs {
+			if o == id && l.exp < w.now {
+				return true
+			}
+		}
+	}
+	return false
+}
+
+func (w *verifC26World) everHeld(id bc.Hash) bool {
+	for _, l := range w.all {
+		for _, o := range l.outs {
+			if o == id {
+				return true
+			}
+		}
+	}
+	return false
+}
+
+// attempt makes one reservation attempt expiring `expiresIn` seconds from now
+func (w *verifC26World) attempt(name string, reserve bool, useUnc bool) {
+	w.notAtBoundary()
+	d := int64(verifU16(name + ".expiresIn"))
+	t := verifC26ExpiryIn(d)
+	if reserve {
+		amount := verifU64(name + ".amount")
+		verifAssume(amount < 1<<42)
+		verifKnown("KF-C26-DUPLICATE-OUTPUT", w.dup && useUnc)
+		verifKnown("KF-C26-ZERO-AMOUNT", amount == 0)
+		res, err := w.uk.Reserve(w.reqAcct, &w.reqAsst, amount, useUnc, w.reqVote, t)
+		verifObserveBool(name+".ok", err == nil)
+		w.checkReserve(amount, useUnc, res, err, w.now+d)
+		return
+	}
+	id := w.anyHash(name + ".output")
+	res, err := w.uk.ReserveParticular(id, useUnc, t)
+	verifObserveBool(name+".ok", err == nil)
+	stale := w.expiredUnsweptHolder(id)
+	again := w.everHeld(id)
+	w.checkParticular(id, useUnc, res, err, w.now+d)
+	if err == ErrReserved && stale {
+		verifReach("VerifC26Expiry:refused-while-expired-but-unswept")
+	}
+	if err == nil && again {
+		verifReach("VerifC26Expiry:reserved-again-after-release")
+	}
+}
+
+func VerifC26Expiry(nConf int, nUnc int, kind int) {
+	w := verifC26Setup(nConf, nUnc, 0)
+	useUnc := verifBool("useUnconfirmed")
+	w.attempt("a", kind == 1, useUnc)
+	w.pass("t1")
+	w.attempt("b", false, useUnc)
+	w.pass("t2")
+	switch verifChoice("disturb", 3) {
+	case 1:
+		w.notAtBoundary()
+		w.uk.expireReservation(time.Now())
+		var keep []*verifC26Res
+		for _, l := range w.live {
+			if !(l.exp < w.now) {
+				keep = append(keep, l)
+			} else {
+				verifReach("VerifC26Expiry:swept-a-live-reservation")
+			}
+		}
+		w.live = keep
+	case 2:
+		rid := verifU64("cancel.id")
+		w.uk.Cancel(rid)
+		var keep []*verifC26Res
+		for _, l := range w.live {
+			if l.id != rid {
+				keep = append(keep, l)
+			}
+		}
+		w.live = keep
+	}
+	w.pass("t3")
+	w.attempt("c", kind == 2, useUnc)
+	verifReach("VerifC26Expiry:end")
 }
